@@ -447,14 +447,14 @@ func main() {
 			return
 		}
 	}
-	if prop == "C05" || prop == "C18" || prop == "" {
+	if prop == "C05" || prop == "C12" || prop == "C18" || prop == "" {
 		for kind := range directQueries {
 			for i := 0; i < iters; i++ {
 				direct(kind, i)
 				n++
 			}
 		}
-		if prop == "C05" {
+		if prop == "C05" || prop == "C12" {
 			fmt.Printf("racepass: %d harness runs in %.1fs, no race reported\n", n, time.Since(start).Seconds())
 			return
 		}
